@@ -7,6 +7,7 @@ letters on different DoFs commute, `den(OpSum) = sum of den(term)`.  Nothing her
 exact (every float is a dyadic rational m*2^-e; matrices are NumPy object arrays of Python ints with a
 common exponent).
 """
+import math
 import sys
 
 import numpy as np
@@ -131,9 +132,14 @@ class EM:
         return not (np.any(self.re != 0) or np.any(self.im != 0))
 
     def absmax(self):
-        """max entry modulus, as a float (upper estimate: |re| + |im| >= modulus)"""
-        m = max(int(abs(a)) + int(abs(b)) for a, b in zip(self.re.reshape(-1), self.im.reshape(-1)))
-        return m / (1 << self.e)
+        """max entry modulus as a float (integer square root rounded up, so never below the exact value by more than float rounding)"""
+        m2 = max(int(a) * int(a) + int(b) * int(b) for a, b in zip(self.re.reshape(-1), self.im.reshape(-1)))
+        if m2 == 0:
+            return 0.0
+        r = math.isqrt(m2)
+        if r * r != m2:
+            r += 1
+        return r / (1 << self.e)
 
     def dist(self, o):
         return (self - o).absmax()
